@@ -5,6 +5,6 @@ import "verif/mc/checks/gen"
 
 func main() {
 	gen.Main("C07", "exploration",
-		"corpus x runtimes x value trees as in C04 x every encoding variant that carries unknown fields (7 shapes: varint 1/10 bytes, fixed32, fixed64, LEN 0/15/128 bytes; numbers just above the known ones, around 2047/2048 and near 2^29; at every position; inside map entries and nested messages): generated Unmarshal, then Size and Marshal; the re-marshaled bytes are parsed by the reference and must carry the same unknown bytes in input order and the same known tree; Size == len(Marshal); a second round trip is a fixed point; and (default copying decode mode) when the caller overwrites its input buffer between Unmarshal and Marshal the output is the same bytes. distinct_nontrivial = variants whose unknown bytes were compared and preserved.",
+		"corpus x runtimes x value trees as in C04 x every encoding variant that carries unknown fields (7 shapes: varint 1/10 bytes, fixed32, fixed64, LEN 0/15/128 bytes; numbers just above the known ones, around 2047/2048 and near 2^29; at every position; inside map entries and nested messages): generated Unmarshal, then Size and Marshal; the re-marshaled bytes are parsed by the reference and must carry the same unknown bytes in input order and the same known tree; Size == len(Marshal); a second round trip is a fixed point; and (default copying decode mode) when the caller overwrites its input buffer between Unmarshal and Marshal the output is the same bytes. distinct_nontrivial = variants whose unknown bytes were compared and preserved. ROUND 7 ADDITIONS: unknown fields with one-byte keys where the schema has room; a padded-key unknown field followed by a second unknown field (front/front, front/back, back/back).",
 		"unknown fields inside extension ranges are avoided for extendable messages")
 }
